@@ -224,7 +224,13 @@ var requestTypes = []reqLit{
 	{sp("text/csv"), "unsupported", "unsupported", ""},
 	{sp("application/foo"), "unsupported", "unsupported", ""},
 	{sp("application/foo; charset=utf-8"), "unsupported", "unsupported", ""},
+	// the type itself is a well-formed, unsupported media type; only its parameters are malformed
+	{sp("application/x-www-form-urlencoded; charset"), "unsupported-bad-params", "unsupported", ""},
+	{sp("multipart/form-data; boundary="), "unsupported-bad-params", "unsupported", ""},
+	{sp("text/csv; title=\"unterminated"), "unsupported-bad-params", "unsupported", ""},
+	{sp("application/octet-stream; =x"), "unsupported-bad-params", "unsupported", ""},
 	{sp("a b"), "garbage", "garbage", ""},
+	{sp("application/json, application/xml"), "garbage", "garbage", ""},
 	{sp("/"), "garbage", "garbage", ""},
 	{sp("application/"), "garbage", "garbage", ""},
 	{sp(";charset=utf-8"), "garbage", "garbage", ""},
